@@ -31,11 +31,9 @@ type replayIn struct {
 	Paths      [][]edge `json:"paths"`
 }
 
-func rpcOf(op string) string {
-	for _, p := range []string{"Begin", "Round2"} {
-		if strings.HasPrefix(op, p) {
-			return strings.ToLower(op[len(p):])
-		}
+func rpcOf(a Act) string {
+	if strings.HasPrefix(a.Op, "Begin") {
+		return rpcName(a)
 	}
 	return ""
 }
@@ -91,6 +89,9 @@ func (r *replayer) setup(e edge) *Adapter {
 	}
 	if err := ad.Reset(e.To.Roots, e.To.Rev.Cap); err != nil {
 		r.t.Fatalf("setup: %v", err)
+	}
+	if err := ad.InstallLedger(e.To); err != nil {
+		r.t.Fatalf("setup ledger: %v", err)
 	}
 	if err := ad.SetBase(e.To.Rev); err != nil {
 		r.t.Fatalf("setup: %v", err)
@@ -174,7 +175,7 @@ func (r *replayer) runPath(pi int, path []edge) {
 		if ad == nil {
 			r.t.Fatalf("path %d does not start with Setup", pi)
 		}
-		if x := rpcOf(e.Act.Op); x != "" {
+		if x := rpcOf(e.Act); x != "" {
 			rpc = x
 		}
 		r.res.Eval(r.in.Family + "|" + hx.JSON(e.Act) + "|" + hx.JSON(e.To.Roots) + hx.JSON(e.To.Rev.Num))
